@@ -62,6 +62,13 @@ def fit(e, minp):
     return (t, p) if p >= minp else paren(t)
 
 
+def no_prefix(e):
+    """the OKL expression parser does not read a prefix operator directly after a binary operator or `?` / `:`
+    (`Q * -2` is refused): such operands are put in parentheses"""
+    t, p = e
+    return paren(t) if t and t[0] in ("-", "!", "~") else (t, p)
+
+
 def gen_expr(rng, depth):
     if depth <= 0 or rng.random() < 0.3:
         return atom(rng)
@@ -73,8 +80,8 @@ def gen_expr(rng, depth):
         c = fit(gen_expr(rng, depth - 1), 2)
         # the OKL expression parser does not read `a ? b ? c : d : e` (a conditional directly in the middle
         # operand): a conditional in the middle is put in parentheses
-        a = fit(gen_expr(rng, depth - 1), 2)
-        b = gen_expr(rng, depth - 1)
+        a = no_prefix(fit(gen_expr(rng, depth - 1), 2))
+        b = no_prefix(gen_expr(rng, depth - 1))
         return c[0] + ["?"] + a[0] + [":"] + b[0], 1
     op, p = rng.choice(BINOPS)
     if op in ("/", "%"):
@@ -85,7 +92,7 @@ def gen_expr(rng, depth):
         r = ([str(rng.choice([0, 1, 1, 2]))], 13) if rng.random() < 0.7 else paren(atom(rng)[0] + ["&", "3"])
     else:
         l = fit(gen_expr(rng, depth - 1), p)
-        r = fit(gen_expr(rng, depth - 1), p + 1)
+        r = no_prefix(fit(gen_expr(rng, depth - 1), p + 1))
     return l[0] + [op] + r[0], p
 
 
@@ -340,7 +347,7 @@ def run(run, tier, seed, replay_case=None):
     if tier == "quick":
         cases = list(corpus) + random.Random(seed).sample(ex, 80) + [gen_case(rng, tier) for _ in range(260)]
     else:
-        cases = list(corpus) + ex + [gen_case(rng, tier) for _ in range(6000)]
+        cases = list(corpus) + ex + [gen_case(rng, tier) for _ in range(3000)]
     if replay_case is not None:
         cases = [replay_case]
     cases, I, R, S = run_generic(run, PROP, cases, cmd, model, pr, simplifications,
@@ -364,7 +371,8 @@ def run(run, tier, seed, replay_case=None):
         for m in re.finditer(r"loop (\w+) (\w) (\w+)", c):
             shapes.add(m.groups())
     cov["header_shapes_seen"] = len(shapes)
-    cov["translations_per_case"] = 12
+    cov["parses_per_case"] = 7
+    cov["emitted_sources_per_case"] = 12
     cov["rejected_by_translator"] = sum(1 for x in I if x == "R ERR")
     run.assumptions = [
         "operands do not mention the iterator or other loops' iterators (loop-invariant headers)",
@@ -372,7 +380,8 @@ def run(run, tier, seed, replay_case=None):
         "expressions to be free of undefined behaviour)",
         "steps are positive at run time (environments where a step is <= 0 are marked OOS on all sides)",
         "the generator never nests two prefix minus signs (`- -x` prints as `--x`: C15) and never puts a conditional "
-        "directly into the middle operand of a conditional (`a ? b ? c : d : e` is refused by the OKL parser)",
+        "directly into the middle operand of a conditional (`a ? b ? c : d : e` is refused by the OKL parser) nor a prefix "
+        "operator directly after a binary operator (`Q * -2` is refused by the OKL parser)",
     ]
 
 
